@@ -34,3 +34,15 @@ Proof. vm_compute. reflexivity. Qed.
 Lemma parallelogram_slanted_f64 :
   frac_parallelogram F64 (0, 2)%float (4, 2)%float (1, 0)%float 1%float 2%float = (0.5, 0.625)%float.
 Proof. vm_compute. reflexivity. Qed.
+
+(* a missing corner does not stop a value: with no neighbour in the lower-right quadrant the general and the
+   uprights-parallel case give NaN (corner 4 is NaN), but the parallelogram case only looks at three corners; the
+   fourth weight (s t) then multiplies the datum of the FIRST neighbour (argmax of an all-False row is 0) *)
+Definition miss_l : list (float * float * Z) := [((-1)%float, 1%float, 10%Z); (1%float, 1%float, 11%Z); ((-1)%float, (-1)%float, 12%Z)].
+Definition miss_data (i : Z) : float := if Z.eqb i 10 then 100%float else if Z.eqb i 11 then 200%float else if Z.eqb i 12 then 300%float else nan.
+Lemma value_with_missing_corner_f64 :
+  found_corners F64 0%float 0%float miss_l = None /\
+  nb_i (corner F64 LR 0%float 0%float miss_l) = 10%Z /\
+  fractional_distances F64 (-1, 1)%float (1, 1)%float (-1, -1)%float (nan, nan) 0%float 0%float = (0.5, 0.5)%float /\
+  pixel F64 miss_data miss_l 0%float 0%float = 175%float.
+Proof. vm_compute. repeat split; reflexivity. Qed.
